@@ -152,10 +152,11 @@ func runCheck(o checkOpts) (code int) {
 			fn    string
 			stmts bool
 			cl    string
+			multi bool
 		}
-		for li, lv := range []nf{{rootPath, false, ""}, {rootPath, true, ""}, {"", false, rootPath}, {"", false, replPath}, {"all", true, "all"}} {
-			level := fmt.Sprintf("functions:%s closures:%s", lv.fn, lv.cl)
-			normInline, normInlineStmts, normInlineClosures = lv.fn, lv.stmts, lv.cl
+		for li, lv := range []nf{{rootPath, false, "", false}, {rootPath, true, "", false}, {"", false, rootPath, false}, {"", false, replPath, false}, {"all", true, "all", false}, {"all", true, "all", true}} {
+			level := fmt.Sprintf("functions:%s closures:%s multi:%v", lv.fn, lv.cl, lv.multi)
+			normInline, normInlineStmts, normInlineClosures, normInlineMulti = lv.fn, lv.stmts, lv.cl, lv.multi
 			lineOrigins = map[string][]lineOrigin{}
 			normSignature = ""
 			w2 := loadWorld(o.repo, overlay, "")
@@ -181,7 +182,7 @@ func runCheck(o checkOpts) (code int) {
 		}
 		if a.W == w {
 			// keep reporting against the program as written
-			normInline, normInlineStmts, normInlineClosures = "", false, ""
+			normInline, normInlineStmts, normInlineClosures, normInlineMulti = "", false, "", false
 			lineOrigins = map[string][]lineOrigin{}
 			loadWorld(o.repo, overlay, "") // restores the package-level tables built at load time
 		}
